@@ -4,3 +4,4 @@ import Props.C04
 import Props.C05
 import Props.C06
 import Props.C08
+import Props.C19
